@@ -290,6 +290,7 @@ def fragSB (env : Env) : Stmt → Bool
   | .ifThen c t e => fragEB env c && fragSsB env t && fragSsB env e
   | .repeatWhile c b => fragEB env c && fragSsB env b
   | .repeatWith v a b _ body => varOkB env v && fragEB env a && fragEB env b && fragSsB env body
+  | .repeatIn v l body => varOkB env v && fragEB env l && fragSsB env body
   | _ => false
 def fragSsB (env : Env) : List Stmt → Bool
   | [] => true
@@ -349,7 +350,10 @@ theorem fragSB_spec (env : Env) : ∀ (s : Stmt), fragSB env s = true → Spec.F
     simp only [Spec.FragS]
     exact ⟨recvSB_spec env o h.1, fragLB_spec env as h.2⟩
   | .tell .., h => by simp [fragSB] at h
-  | .repeatIn .., h => by simp [fragSB] at h
+  | .repeatIn v l body, h => by
+    simp only [fragSB, Bool.and_eq_true] at h
+    simp only [Spec.FragS]
+    exact ⟨varOkB_spec env v h.1.1, fragEB_spec env l h.1.2, fragSsB_spec env body h.2⟩
   | .exitRepeat, h => by simp [fragSB] at h
 theorem fragSsB_spec (env : Env) : ∀ (ss : List Stmt), fragSsB env ss = true → Spec.FragSs env ss
   | [], _ => by simp [Spec.FragSs]
